@@ -52,12 +52,24 @@ Definition sem_any (e : enc) (s : bytes) : option (Z * Z) :=
 
 (** [deadline_ok c t hdr rejected called backend_hdr]: the C12 predicate on one observed
     exchange.  Durations are compared exactly as rationals. *)
+(** REST has no formal grammar; the monitor only insists on what is unambiguous: a string with
+    a character outside [0-9.eE+-], or starting with '-', must be rejected; plain decimals
+    must be accepted; everything else (exponents, explicit '+') is left unspecified. *)
+Definition rest_char_ok (c : N) : bool :=
+  is_digit c || (c =? 46)%N || (c =? 101)%N || (c =? 69)%N || (c =? 43)%N || (c =? 45)%N.
+Definition rest_definitely_malformed (s : bytes) : bool :=
+  negb (forallb rest_char_ok s) || match s with 45%N :: _ => true | _ => false end.
+
 Definition deadline_ok (c t : enc) (hdr : option bytes) (rejected called : bool) (bh : option bytes) : bool :=
   match hdr with
-  | None | Some [] => negb rejected && called && match bh with None => true | Some _ => false end
+  | None | Some [] => negb rejected && called && match bh with None | Some [] => true | Some _ => false end
   | Some h =>
       match sem_any c h with
-      | None => rejected && negb called
+      | None =>
+          match c with
+          | ERest => if rest_definitely_malformed h then rejected && negb called else true
+          | _ => rejected && negb called
+          end
       | Some (dn, ds) =>
           negb rejected && called &&
           match bh with
@@ -83,7 +95,12 @@ Definition deadline_ok (c t : enc) (hdr : option bytes) (rejected called : bool)
                                | EConnect => (dn' =? 9999999999 * ns_ms) && (9999999999 * ns_ms * ds <? dn)
                                | _ => false
                                end in
-                  (if is_rest then le_slack else le) && (within || clamp)
+                  (* a REST client value beyond time.Duration's range is clamped to the largest duration *)
+                  let clamp_range := match c with
+                                     | ERest => (max_int64 * ds <? dn) && (max_int64 * ds' - unit * ds' <? dn' )
+                                     | _ => false
+                                     end in
+                  (if is_rest then le_slack else le) && (within || clamp || clamp_range)
               end
           end
       end
